@@ -394,7 +394,10 @@ def _ranges(chk, facts):
             chk.ob("R-C01-5", f"Node->NodeTy:{v}", ok, f"{v}: from, to, inclusive, step carried one-to-one" if ok else f"{v}: NodeTy::from changes the fields: {rows[0]['fields'] if rows else None}", facts.loc_of(fn1))
         cr = syn.one_fn("convert_range_slice", mod="generate::convert::range_slice")
         loc = facts.loc_of(cr)
+        from . import symeval
+        se = symeval.SymEval(syn, "generate::convert")
         ms = [n for n in walk(cr["body"]) if n.get("k") == "match"]
+        ONE = ("core", "Core::Int", {"int": ("str", "1")})
         for a in ms[0]["arms"]:
             for alt in pat_alternatives(a["pat"]):
                 if alt.get("k") != "pstruct":
@@ -403,88 +406,48 @@ def _ranges(chk, facts):
                 if v not in ("Range", "Slice"):
                     continue
                 label = v.lower()
-                calls = [n for n in walk(a["body"]) if n.get("k") == "struct" and n["p"] == "Core::FunctionCall"]
-                if len(calls) != 1:
-                    raise AnchorError(f"{v}: {len(calls)} Core::FunctionCall constructions")
-                fc = dict(calls[0]["fields"])
-                fname = src(fc["function"]).replace(" ", "")
-                ok = f"clss::python::{v.upper()}" in fname
-                chk.ob("R-C01-5", f"{label}:callee", ok, f"{v} -> {label}(..)" if ok else f"{v} is built as a call of `{fname[:60]}`", loc)
-                vec = strip(fc["args"])
-                elems = None
-                for n in walk(vec):
-                    if n.get("k") == "array":
-                        elems = n["elems"]
-                        break
-                    if n.get("k") == "macro" and n.get("name") == "vec" and "args" in n:
-                        elems = n["args"]
-                        break
-                if elems is None or len(elems) != 3:
-                    raise AnchorError(f"{v}: argument vector with {None if elems is None else len(elems)} elements")
-                e0, e1, e2 = [strip(x) for x in elems]
-                # try-wrapped `convert_node(x, ..)?`
-                def conv_of(e):
-                    e = strip(e)
-                    if e.get("k") == "try":
-                        e = strip(e["e"])
-                    if e.get("k") == "block":
-                        e = strip(tail_expr(e) or {})
-                        if e.get("k") == "try":
-                            e = strip(e["e"])
-                    if e.get("k") == "call" and src(e["f"]) == "convert_node":
-                        return src(strip(e["args"][0]))
-                    return None
-                ok = conv_of(e0) == "from"
-                chk.ob("R-C01-5", f"{label}:arg1", ok, f"{label}: first argument is `from`" if ok else f"{label}: first argument is `{src(e0)[:60]}`", loc)
-                # e1: if <cond> { adj } else { plain }
-                okshape = e1.get("k") == "if"
-                incl_branch = excl_branch = None
-                if okshape:
-                    c = src(strip(e1["c"])).replace(" ", "")
-                    if c in ("inclusive", "*inclusive"):
-                        incl_branch, excl_branch = e1["then"], e1["else"]
-                    elif c in ("!inclusive", "!*inclusive", "(!inclusive)", "(!*inclusive)"):
-                        incl_branch, excl_branch = e1["else"], e1["then"]
-                    else:
-                        okshape = False
-                if not okshape:
-                    chk.ob("R-C01-5", f"{label}:end", False, f"{label}: the end argument is no longer a choice on the node's own `inclusive` flag: `{src(e1)[:80]}`", loc)
+                env = {}
+                for fname, fp in alt["fields"]:
+                    for m in walk(fp):
+                        if m.get("k") == "pident":
+                            env[m["name"]] = ("var", fname)
+                val = se.ev(a["body"], env)   # what the arm builds, whatever the way it is written (helpers, lets, match/if-let)
+                if val[0] != "core" or val[1] != "Core::FunctionCall":
+                    raise AnchorError(f"{v}: the arm builds {symeval.show(val)[:80]}")
+                fn_v, args_v = val[2].get("function"), val[2].get("args")
+                ok = fn_v is not None and fn_v[0] == "core" and fn_v[1] == "Core::Id" and fn_v[2].get("lit") in (("var", f"clss::python::{v.upper()}"), ("var", f"python::{v.upper()}"), ("var", v.upper()))
+                chk.ob("R-C01-5", f"{label}:callee", ok, f"{v} -> {label}(..)" if ok else f"{v} is built as a call of `{symeval.show(fn_v)[:60]}`", loc)
+                if args_v is None or args_v[0] != "list" or len(args_v[1]) != 3:
+                    raise AnchorError(f"{v}: arguments are {symeval.show(args_v)[:80] if args_v else None}")
+                e0, e1, e2 = args_v[1]
+                ok = e0[0] == "conv" and e0[1] == "from"
+                chk.ob("R-C01-5", f"{label}:arg1", ok, f"{label}: first argument is `from`" if ok else f"{label}: first argument is `{symeval.show(e0)[:60]}`", loc)
+
+                def is_to(x):
+                    return x[0] == "conv" and x[1] == "to"
+
+                def adj(x):
+                    if is_to(x):
+                        return "to"
+                    if x[0] == "core" and x[1] in ("Core::Add", "Core::Sub") and is_to(x[2].get("left", ("?",))):
+                        r = x[2].get("right")
+                        sign = "+" if x[1] == "Core::Add" else "-"
+                        return "to" + sign + ("1" if r == ONE else "<" + symeval.show(r)[:30] + ">")
+                    return "?" + symeval.show(x)[:40]
+                if e1[0] != "ite" or e1[1] != "inclusive":
+                    chk.ob("R-C01-5", f"{label}:end", False, f"{label}: the end argument is not a choice on the node's own `inclusive` flag: `{symeval.show(e1)[:80]}`", loc)
                 else:
-                    def adj(b):
-                        b = strip(tail_expr(b) if b.get("k") == "block" else b)
-                        if b.get("k") == "struct" and b["p"] in ("Core::Add", "Core::Sub"):
-                            f = dict(b["fields"])
-                            # the right operand must be *exactly* the literal Core::Int { int: "1" } (through Box::from): anything
-                            # computed (a match on the step, a call) is a different adjustment
-                            r = strip(f["right"])
-                            while r.get("k") == "call" and src(r["f"]) in ("Box::from", "Box::new") and len(r["args"]) == 1:
-                                r = strip(r["args"][0])
-                            is_one = r.get("k") == "struct" and r["p"] == "Core::Int" and len(r["fields"]) == 1 and \
-                                [n["v"] for n in walk(r["fields"][0][1]) if n.get("k") == "lit" and n.get("t") == "str"] == ["1"] and \
-                                not any(n.get("k") in ("match", "if", "mcall") and n.get("m", "") not in ("", "from") for n in walk(r["fields"][0][1]) if n.get("k") in ("match", "if"))
-                            if conv_of(f["left"]) == "to" and is_one:
-                                return "to+1" if b["p"] == "Core::Add" else "to-1"
-                            if conv_of(f["left"]) == "to":
-                                return ("to+" if b["p"] == "Core::Add" else "to-") + "<" + src(r)[:30] + ">"
-                            return "?"
-                        return "to" if conv_of(b) == "to" else "?"
-                    ai, ae = adj(incl_branch), adj(excl_branch)
+                    ai, ae = adj(e1[2]), adj(e1[3])
                     ok = ai == "to+1" and ae == "to"
                     chk.ob("R-C01-5", f"{label}:end", ok, f"{label}: end is `to` when exclusive and `to + 1` when inclusive" if ok else
                            f"{label}: end is `{ae}` when exclusive and `{ai}` when inclusive; Python's {label}() excludes its end, so exclusive must be `to` and inclusive `to + 1`", loc)
-                    # the inclusive adjustment is +1 whatever the sign of the step
                     if v == "Range" and ai == "to+1":
-                        # `to + 1` is the right end only for a positive step; no shape other than the literal 1 is recognised above, so a
-                        # repair of this finding has to extend adj() with the form it uses
-                        mentions_step = False
-                        chk.ob("R-C01-5", "range:inclusive-end-ignores-step", mentions_step, "the inclusive end adjustment follows the direction of the step" if mentions_step else
+                        # `to + 1` is the right end only for a positive step; adj() recognises no other adjustment, so a repair of this
+                        # finding has to teach it the form it uses
+                        chk.ob("R-C01-5", "range:inclusive-end-ignores-step", False,
                                "the inclusive end is `to + 1` whatever the step: with a negative step the range stops one short of `to` (3 ..= 1 .. -1 gives 3 only)", loc)
-                # e2: step or 1
-                ok = e2.get("k") == "if" and e2["c"].get("k") == "let" and src(strip(e2["c"]["e"])) == "step" and conv_of(e2["then"]) == "step"
-                if ok:
-                    lits = [n for n in walk(e2["else"]) if n.get("k") == "lit" and n.get("t") == "str"]
-                    ok = len(lits) == 1 and lits[0]["v"] == "1" and "Core::Int" in src(e2["else"])
-                chk.ob("R-C01-5", f"{label}:step", ok, f"{label}: third argument is the step, default 1" if ok else f"{label}: the step argument changed: `{src(e2)[:80]}`", loc)
+                ok = e2[0] == "ite" and e2[1] == "some(step)" and e2[2][0] == "conv" and e2[2][1] == "step" and e2[3] == ONE
+                chk.ob("R-C01-5", f"{label}:step", ok, f"{label}: third argument is the step, default 1" if ok else f"{label}: the step argument is `{symeval.show(e2)[:80]}`", loc)
     except AnchorError as e:
         chk.anchor_fail("R-C01-5", e)
 
